@@ -178,6 +178,8 @@ def run(tier: str) -> Run:
         g = sorted(t for t in s.ret.cont if t.startswith('g:'))
         r2.check(not g, fi.fq, loc(fi), {'returns_container': g, 'elements_from': sorted(t for t in s.ret.elem if t.startswith('g:'))[:3]}, key=fi.fq)
     seen = {repo.func(m, n).fq for m, n in GRAPH_FACTORIES}
+    # module-level containers that some function of the package writes to (memo tables kept by hand)
+    runtime_tables = {t.rstrip('[]') for s_ in eff.summaries.values() for t in s_.mutates if t.startswith('g:')}
     for fq, fi in sorted(eff.funcs.items()):
         if fq in seen or not fi.module.startswith(TARGET_PREFIXES) or not is_public(fi, eff):
             continue
@@ -190,10 +192,12 @@ def run(tier: str) -> Run:
         # one level down: a fresh record or list whose fields / elements are objects stored by a memoising wrapper
         memo = {}
         for k, v in (rs.fields or ()):
-            c = sorted(t for t in v.cont if t.startswith('g:') and t.endswith('#cache'))
+            # (a functools cache, or an entry of a module-level table written at run time: a memo table kept by hand)
+            c = sorted(t for t in v.cont if t.startswith('g:') and (t.endswith('#cache') or t.rstrip('[]') in runtime_tables))
             if c:
                 memo[k] = c
-        ce = sorted(t.rstrip('[]') for t in rs.elem if t.startswith('g:') and t.rstrip('[]').endswith('#cache') and not t.endswith('[]'))
+        ce = sorted(t.rstrip('[]') for t in rs.elem if t.startswith('g:') and (t.rstrip('[]').endswith('#cache') and not t.endswith('[]')
+                                                                                 or t.endswith('[]') and not t.endswith('[][]') and t[:-2] in runtime_tables))
         if ce:
             memo['<elements>'] = ce
         if memo and ret_ann not in ('str', 'int', 'float', 'bool', 'bytes', 'None'):
